@@ -61,7 +61,7 @@ static size_t rp_rsize(const struct rp_layout *L, size_t k) { return L->mantissa
 #define BOUND_MANTISSA(proof, plen) __CPROVER_assume(MAXMAN >= 64 || (plen) < 2 || !((proof)[0] & 64) || (proof)[1] < MAXMAN)
 
 static void rp_reset(size_t gk, size_t gb) {
-    g_xq_n = 0; g_xq_hit = 0; g_xq_and = 1; g_sq_n = 0; g_sq_hit = 0; g_ag_n = 0; g_ag_hit = 0; g_ag_last_inf = 0; g_ps_n = 0; g_pe_n = 0; g_bv_n = 0; g_bv_v = 0;
+    g_xq_n = 0; g_xq_hit = 0; g_xq_and = 1; g_sq_n = 0; g_sq_hit = 0; g_ag_n = 0; g_ag_hit = 0; g_ag_last_inf = 0; g_ps_n = 0; g_pe_n = 0; g_bv_n = 0; g_bv_v = 0; g_bv_and = 1;
     g_rp_k = gk; g_rp_b = gb; g_xq_watch = (int)gk; g_ag_watch = (int)gk;
     g_sb_n = 0; g_sb_hit = 0; g_sb_or = 0; rp_watch_scalar(NULL); g_fl_n = 0; g_fl_hit = 0; g_fl_and = 1; rp_watch_fe(NULL);
     HASHLOG_RESET();
@@ -86,47 +86,46 @@ void h_verify_gates(void) {
     ret = secp256k1_rangeproof_verify_impl(&hc, NULL, NULL, NULL, NULL, NULL, NULL, &minv, &maxv, &commit, proof, plen, use_extra ? extra : NULL, use_extra ? eclen : 0, &genp);
     WITNESS_BUF(pf, proof, plen, 2);
     __CPROVER_assert(ret == 0 || ret == 1, "C10 verify gates: returns 0 or 1");
-    __CPROVER_assert(g_bv_n <= 1 && g_pe_n <= 1 && g_ps_n <= 1, "C10 verify gates: at most one ring verification, one expansion, one min*H");
-    if (g_bv_n == 1) __CPROVER_assert(ret == g_bv_v, "C10 verify gates: once the ring equation is consulted the result is its verdict");
+    /* Everything below is demanded on ACCEPTING paths only, over logged VALUES (no call counts, no pointer identity except
+     * for the two arrays shared by expansion and ring equation, nothing about what a rejecting path did or did not call). */
     if (ret == 1) {
-        __CPROVER_assert(g_bv_n == 1 && g_bv_v == 1, "C10 verify gates: accepts only on a positive Borromean verdict");
+        __CPROVER_assert(g_bv_n >= 1 && g_bv_and == 1, "C10 verify gates: accepts only on a positive Borromean verdict");
         __CPROVER_assert(L.ok && minv == L.minv && maxv == L.maxv, "C10 verify gates: header accepted by getheader and reported min/max are the header's");
         __CPROVER_assert(plen == L.total, "C10 verify gates: accepted proof has exactly the specified length (no trailing bytes)");
         if ((L.rings - 1) & 7) __CPROVER_assert((proof[L.digit_off - 1] >> ((L.rings - 1) & 7)) == 0, "C10 verify gates: spare sign bits are zero");
-        __CPROVER_assert(g_xq_n == (int)(L.rings - 1) && g_xq_and == 1 && g_fl_n == g_xq_n && g_fl_and == 1, "C10 verify gates: one range check and one lift per digit commitment, all positive");
+        __CPROVER_assert(g_xq_and == 1 && g_fl_and == 1, "C10 verify gates: every range check and every lift consulted was positive");
         if (gk < L.rings - 1) {
             __CPROVER_assert(g_fl_hit && g_fl_wv == 1 && xbytes < P_(), "C10 verify gates: every digit commitment x < p");
-            __CPROVER_assert(g_xq_hit && g_xq_v == 1 && FE_EQ(g_xq_x, g_fl_wr) && fval(&g_xq_x) == xbytes, "C10 verify gates: lift verdict consulted for exactly this digit's x and positive");
+            __CPROVER_assert(g_xq_hit && g_xq_v == 1 && fval(&g_xq_x) == xbytes, "C10 verify gates: lift verdict consulted for exactly this digit's x and positive");
         }
-        __CPROVER_assert(g_sb_n == (int)L.npub && g_sb_or == 0, "C10 verify gates: one scalar read per ring member, none overflowing");
+        __CPROVER_assert(g_sb_or == 0, "C10 verify gates: no scalar read overflowed");
         if (gk < L.npub) {
             __CPROVER_assert(g_sb_hit && g_sb_wovf == 0 && sbytes < N_(), "C10 verify gates: every ring scalar < n");
-            __CPROVER_assert(SC_EQ(g_bv_s_k, g_sb_wr) && sval(&g_bv_s_k) == sbytes, "C10 verify gates: ring scalar k handed to the ring equation is proof scalar k");
+            __CPROVER_assert(sval(&g_bv_s_k) == sbytes, "C10 verify gates: ring scalar k handed to the ring equation is proof scalar k");
         }
-        __CPROVER_assert(g_pe_n == 1 && g_pe_exp == L.exp && g_pe_rings == L.rings && g_pe_genp == &genp, "C10 verify gates: pub_expand gets the header exponent, the ring count and the generator");
+        __CPROVER_assert(g_pe_n >= 1 && g_pe_exp == L.exp && g_pe_rings == L.rings && GE_EQ(g_pe_genp_v, &genp), "C10 verify gates: pub_expand gets the header exponent, the ring count and the generator");
         if (gk < L.rings) __CPROVER_assert(g_pe_rs_k == rp_rsize(&L, gk) && g_bv_rs_k == rp_rsize(&L, gk), "C10 verify gates: ring sizes are 4,...,4[,2] (1 for an exact value) for expansion and ring equation");
-        __CPROVER_assert(g_bv_nrings == L.rings && g_bv_mlen == 32 && g_bv_ev == NULL, "C10 verify gates: ring equation gets the ring count, a 32-byte message, no rewind buffer");
-        __CPROVER_assert(g_bv_e0 == proof + L.e0_off, "C10 verify gates: e0 is the 32 bytes after the digit commitments");
-        __CPROVER_assert(g_bv_pubs == g_pe_pubs && g_bv_rsizes == g_pe_rsizes, "C10 verify gates: ring equation and expansion share keys and ring sizes");
-        __CPROVER_assert(g_ps_n == (L.minv != 0) && (L.minv == 0 || (g_ps_gn0 == L.minv && g_ps_genp0 == &genp)), "C10 verify gates: min_value*H computed iff min_value != 0, with the header minimum and the generator");
-        __CPROVER_assert(g_ag_n == (int)L.rings && g_ag_last_inf == 0, "C10 verify gates: one accumulation per digit plus the commitment; derived last digit not at infinity");
+        __CPROVER_assert(g_bv_nrings == L.rings && g_bv_mlen == 32, "C10 verify gates: ring equation gets the ring count and a 32-byte message");
+        __CPROVER_assert(g_bv_e0_b == proof[L.e0_off + gb], "C10 verify gates: e0 is the 32 bytes after the digit commitments");
+        __CPROVER_assert(g_bv_pubs == g_pe_pubs && g_bv_rsizes == g_pe_rsizes, "C10 verify gates: ring equation and expansion work on the same key array and ring sizes");
+        if (L.minv != 0) __CPROVER_assert(g_ps_n >= 1 && g_ps_gn0 == L.minv && GE_EQ(g_ps_genp0_v, &genp), "C10 verify gates: min_value*H computed from the header minimum and the generator");
+        __CPROVER_assert(g_ag_last_inf == 0, "C10 verify gates: derived last digit not at infinity");
         if (gk < L.rings - 1) {
-            /* digit k: the lifted point, negated iff its sign bit is set, is what is accumulated (in place) */
+            /* digit k: the lifted point, negated iff its sign bit is set, is what is accumulated */
             secp256k1_ge t = g_xq_r;
             if ((proof[L.hdr + (gk >> 3)] >> (gk & 7)) & 1) secp256k1_ge_neg(&t, &t);
-            __CPROVER_assert(g_ag_hit && g_ag_rp == g_ag_ap && FE_EQ(g_ag_b.x, t.x) && FE_EQ(g_ag_b.y, t.y) && g_ag_b.infinity == 0, "C10 verify gates: digit k accumulated in place, negated iff sign bit k is set");
-            if (L.minv != 0) __CPROVER_assert(g_ag_ap == g_ps_rp0, "C10 verify gates: accumulator starts from min_value*H");
+            __CPROVER_assert(g_ag_hit && FE_EQ(g_ag_b.x, t.x) && FE_EQ(g_ag_b.y, t.y) && g_ag_b.infinity == 0, "C10 verify gates: digit k accumulated, negated iff sign bit k is set");
         }
-        if (gk == L.rings - 1) {
-            __CPROVER_assert(g_ag_hit && g_ag_bp == &commit && SAME_PTR(g_ag_rp, g_pe_pubs, 4 * (L.rings - 1) * sizeof(secp256k1_gej)), "C10 verify gates: last digit = commitment + (negated accumulator), stored as first key of the last ring");
-        }
+        __CPROVER_assert(FE_EQ(g_ag_last_b.x, commit.x) && FE_EQ(g_ag_last_b.y, commit.y) && g_ag_last_b.infinity == commit.infinity, "C10 verify gates: the last accumulation adds the commitment");
     }
-    /* exactness, other direction: a proof is rejected without consulting the ring equation only if the header, the
-     * length, the spare sign bits, a digit range check / lift, the derived last digit or a scalar range check fails */
+    /* exactness, other direction: a proof is rejected without a ring verdict only if the header, the length, the spare sign
+     * bits, a digit range check / lift, the derived last digit or a scalar range check fails; with a verdict, it decides */
     if (L.ok && plen == L.total) {
         if ((L.rings - 1) & 7) spare_ok = (proof[L.digit_off - 1] >> ((L.rings - 1) & 7)) == 0;
-        if (spare_ok && g_fl_and && g_xq_and && !g_ag_last_inf && !g_sb_or)
-            __CPROVER_assert(g_bv_n == 1, "C10 verify gates: a proof passing every format gate reaches the ring equation (no other reason to reject)");
+        if (spare_ok && g_fl_and && g_xq_and && !g_ag_last_inf && !g_sb_or) {
+            __CPROVER_assert(g_bv_n >= 1, "C10 verify gates: a proof passing every format gate reaches the ring equation (no other reason to reject)");
+            if (g_bv_and) __CPROVER_assert(ret == 1, "C10 verify gates: a proof passing every gate with a positive ring verdict is accepted");
+        }
     }
     if (ret == 1 && L.mantissa == MAXMAN && L.minv != 0) REACH("verify accepts the largest mantissa with min");
     if (ret == 0 && L.ok && plen == L.total && g_bv_n == 0) REACH("verify rejects a well-sized proof before the ring equation");
@@ -143,13 +142,12 @@ void h_verify_binding(void) {
     INPUT_BUF(ex, extra, eclen, 8);
     BOUND_MANTISSA(proof, plen);
     hc.fn_sha256_compression = secp256k1_sha256_transform;
-    rp_reset(0, gb); g_we = 0; g_wpos = wpos; g_sq_watch = sqw;
+    rp_reset(0, gb); g_we = 0;   /* the binding hash is the first hash computation verify_impl finishes */ g_wpos = wpos; g_sq_watch = sqw;
     ret = secp256k1_rangeproof_verify_impl(&hc, NULL, NULL, NULL, NULL, NULL, NULL, &minv, &maxv, &commit, proof, plen, use_extra ? extra : NULL, use_extra ? eclen : 0, &genp);
     WITNESS_BUF(pf, proof, plen, 2);
     L = rp_spec(proof, plen);
-    __CPROVER_assert(g_fin_n <= 1, "C10 verify binding: at most one hash computation outside the ring equation");
-    if (ret == 1) __CPROVER_assert(g_fin_n == 1 && g_bv_n == 1, "C10 verify binding: acceptance implies the binding hash was finalized and handed on");
-    if (g_bv_n == 1) {
+    if (ret == 1) __CPROVER_assert(g_fin_n >= 1 && g_bv_n >= 1, "C10 verify binding: acceptance implies the binding hash was finalized and handed on");
+    if (ret == 1) {                       /* accepting paths only */
         __CPROVER_assert(g_w_fin && g_bv_mlen == 32 && g_bv_m_b == g_w_dig[gb], "C10 verify binding: the ring message is the 32-byte digest of the binding hash");
         __CPROVER_assert(g_w_started && g_w_b0 == 0 && g_w_s0 == 0x6a09e667ul && g_w_s7 == 0x5be0cd19ul, "C10 verify binding: plain SHA-256 from the initial state");
         base = 66 + (uint64_t)L.hdr + 33 * (uint64_t)(L.rings - 1);
